@@ -100,7 +100,7 @@ theorem inRange_of_inv {s : State} (hv : ValidCfg s.cfg) (hI : Inv s) {k : Nat} 
   have w := hI.wf _ (mem_of_lookup h)
   have e1 : a.portStart.toNat = s.cfg.rangeStart + a.slot * s.cfg.pps := (WF.hi_eq hv w).1
   have e2 : a.portEnd.toNat = s.cfg.rangeStart + a.slot * s.cfg.pps + s.cfg.pps - 1 := (WF.hi_eq hv w).2
-  have hle : s.cfg.rangeStart + (a.slot + 1) * s.cfg.pps ≤ s.cfg.rangeEnd + 1 := slot_end_le s.cfg hv.1 w.slot
+  have hle : s.cfg.rangeStart + (a.slot + 1) * s.cfg.pps ≤ s.cfg.rangeEnd + 1 := slot_end_le s.cfg hv w.slot
   have em : (a.slot + 1) * s.cfg.pps = a.slot * s.cfg.pps + s.cfg.pps := by rw [Nat.add_mul, Nat.one_mul]
   have := hv.1
   unfold inRange blkOf
